@@ -140,19 +140,63 @@ def d16_2(ctx):
     sp = ctx.spec("identity")
     mio = ctx.model.cls(f"{CT}:ModuleIdentityObject")
     lio = ctx.model.cls(f"{CT}:ListIdentityObject")
-    want = {
-        "product_type": ("get", "PRODUCT_TYPES", "values['product_type']", sp["unknown_text"]),
-        "vendor": ("get", "VENDORS", "values['vendor']", sp["unknown_text"]),
-        "serial": ("format", "08x", "values['serial']"),
-    }
+    # witness evaluation of the post-processing (sa/miniinterp.py): the Struct decode is replaced by a dict holding one id per
+    # table row (every product type id incl. 0, a spread of vendor ids, an id outside each table) and serial numbers with
+    # leading zeros; the decoder's own statements - through helper functions if it has any - are folded on each witness.
+    from ..miniinterp import run_function
+
+    tables = {"product_type": ctx.folder.module_value("pycomm3.cip.status_info", "PRODUCT_TYPES"), "vendor": ctx.folder.module_value("pycomm3.cip.status_info", "VENDORS")}
     for c in (mio, lio):
         fn = c.methods.get("_decode")
-        got = _post(ctx, fn, c.module) if fn else {}
-        ctx.check(got == want, ckey(c.key + "._decode", "post"), fn or c.node, "vendor/product type via table.get(id, 'UNKNOWN'); serial as 08x",
-                  f"{c.name}._decode post-processing {got} differs from the documented mapping {want}", got={k: list(map(str, v)) for k, v in got.items()})
-        sup = [n for n in walk(fn) if isinstance(n, ast.Call) and isinstance(n.func, ast.Attribute) and n.func.attr == "_decode" and isinstance(n.func.value, ast.Call) and call_name(n.func.value) == "super"] if fn else []
+        key = ckey(c.key + "._decode", "post")
+        if fn is None or not all(isinstance(t, dict) for t in tables.values()):
+            ctx.undecided(key, fn or c.node, "decoder or id tables not found")
+            continue
+        fields = []
+        for b_ in c.node.bases:
+            if isinstance(b_, ast.Call):
+                for a_ in b_.args:
+                    if isinstance(a_, ast.Call) and a_.args and isinstance(a_.args[0], ast.Constant):
+                        fields.append(a_.args[0].value)
+        base_w = {f: 1 for f in fields}
+        samples = []
+        for fld, tbl in tables.items():
+            ids = sorted(k for k in tbl if isinstance(k, int))
+            pick = ids if len(ids) <= 80 else sorted(set(ids[:20] + ids[-5:] + ids[:: max(1, len(ids) // 40)]))
+            unknown = next(x for x in range(0, 70000) if x not in tbl)
+            for i in pick + [unknown]:
+                w = dict(base_w, vendor=1, product_type=12, serial=0x1A2B)
+                w[fld] = i
+                samples.append((fld, i, w))
+        for sn in (0, 0x1234, 0xFFFFFFFF):
+            samples.append(("serial", sn, dict(base_w, vendor=1, product_type=12, serial=sn)))
+
+        def hook(call, env, it, _w=None):
+            f_ = call.func
+            if isinstance(f_, ast.Attribute) and f_.attr == "_decode" and isinstance(f_.value, ast.Call) and call_name(f_.value) == "super":
+                import copy as _c
+
+                return _c.deepcopy(hook.witness)
+            return UNKNOWN
+
+        bad, undecided = [], None
+        for fld, i, w in samples:
+            hook.witness = w
+            kind, res = run_function(ctx, c.module, fn, {"cls": None, "stream": None}, call_hook=hook)
+            if kind == "unknown":
+                undecided = res
+                break
+            want_v = {"product_type": tables["product_type"].get(w["product_type"], sp["unknown_text"]), "vendor": tables["vendor"].get(w["vendor"], sp["unknown_text"]), "serial": f"{w['serial']:08x}"}
+            if kind != "return" or not isinstance(res, dict) or any(res.get(k) != v for k, v in want_v.items()):
+                got_v = {k: res.get(k) for k in want_v} if isinstance(res, dict) else (kind, res)
+                bad.append(f"{fld} id {i}: {got_v} (expected {want_v})")
+        if undecided is not None:
+            ctx.undecided(key, fn, f"post-processing not foldable: {undecided}")
+            continue
+        ctx.check(not bad, key, fn, f"vendor / product type ids become their table names ('{sp['unknown_text']}' outside the tables), serial as 8 hex digits - on {len(samples)} witnesses",
+                  f"{c.name}._decode post-processing deviates on {len(bad)} of {len(samples)} witnesses, e.g. {bad[:2]}", witnesses=len(samples))
+        sup = [n for n in walk(fn) if isinstance(n, ast.Call) and isinstance(n.func, ast.Attribute) and n.func.attr == "_decode" and isinstance(n.func.value, ast.Call) and call_name(n.func.value) == "super"]
         ctx.check(len(sup) == 1 and atom_name(sup[0].args[0]) == "stream", ckey(c.key + "._decode", "base"), fn or c.node, "fields come from the Struct decoder on the same stream", "identity _decode does not start from the Struct decoder of the same stream")
-    ctx.check(dump(mio.methods["_decode"].body[1:]) == dump(lio.methods["_decode"].body[1:]), ckey(CT, "decode-siblings"), lio.methods["_decode"], "both identity decoders post-process identically", "the two identity decoders post-process differently")
     e = mio.methods.get("_encode")
     got = _post(ctx, e, mio.module) if e else {}
     good = got.get("product_type") == ("index", "PRODUCT_TYPES", "values['product_type']") and got.get("vendor") == ("index", "VENDORS", "values['vendor']") and got.get("serial", ("",))[0] == "other" and "fromhex" in got["serial"][1]
